@@ -99,7 +99,7 @@ def _nobs(ndim, which):
 
 
 def _op_block(sizes, newsizes, ndim, doms, dks, hows, offsets='all', wopts=(None,),
-              ran_dtype=None, spell=False):
+              ran_dtype=None, spell=False, ran_nobs=(None,)):
     cfgs = []
     for shape in itertools.product(sizes, repeat=ndim):
         for newshp in itertools.product(newsizes, repeat=ndim):
@@ -123,6 +123,9 @@ def _op_block(sizes, newsizes, ndim, doms, dks, hows, offsets='all', wopts=(None
                         for k in (1, 2):
                             if all(k <= abs(m - n) for n, m in zip(shape, newshp) if n != m):
                                 extra.append(([k] * ndim, 'scalar'))
+            elif offsets == 'first':        # the two extreme explicit offsets
+                ao = [list(o) for o in R.all_offsets(shape, newshp)]
+                offs += [ao[0]] + ([ao[-1]] if len(ao) > 1 else [])
             for dom in doms:
                 dnob = _nobs(ndim, dom['nob'])
                 if any(n == 1 and (l or r) for n, (l, r) in zip(shape, dnob)):
@@ -132,7 +135,7 @@ def _op_block(sizes, newsizes, ndim, doms, dks, hows, offsets='all', wopts=(None
                     continue    # resizing a non-uniform axis is rejected (kind 'rej'); fewer
                                 # than 3 points are always uniformly spaced
                 for how in hows:
-                    if how == 'range' and dom.get('nonuni'):
+                    if how == 'range' and dom.get('nonuni') and ran_nobs != (None,):
                         continue
                     for dk in dks:
                         if how == 'range' and dk is not None:
@@ -149,9 +152,17 @@ def _op_block(sizes, newsizes, ndim, doms, dks, hows, offsets='all', wopts=(None
                                     continue    # range weighting undefined (shape changes)
                                 if w is not None and (dk is not None or dom['nob'] != 'F'):
                                     continue    # one deviation at a time for the weights
-                                cfgs.append({'kind': 'op', 'shape': list(shape),
-                                             'newshp': list(newshp), 'dom': dom, 'how': how,
-                                             'dk_nob': dk, 'offset': off, 'w': w})
+                                for rn in (ran_nobs if how == 'range' else (None,)):
+                                    if rn is not None and any(
+                                            m == 1 and (l or r)
+                                            for m, (l, r) in zip(newshp, _nobs(ndim, rn))):
+                                        continue    # 1-point axis with a node on the boundary
+                                    c = {'kind': 'op', 'shape': list(shape),
+                                         'newshp': list(newshp), 'dom': dom, 'how': how,
+                                         'dk_nob': dk, 'offset': off, 'w': w}
+                                    if rn is not None:
+                                        c['ran_nob'] = rn
+                                    cfgs.append(c)
                         if how == 'ran_shp':
                             for off, form in extra:
                                 c = {'kind': 'op', 'shape': list(shape),
@@ -252,7 +263,26 @@ def configs(tier):
                          ['ran_shp', 'range'], spell=True)
         ops += _op_block([1, 2, 3], range(1, 6), 2, [d_f64], [None], ['ran_shp', 'range'],
                          spell=True)
+    # explicit range= with its own boundary placement / its own dtype (the hand-built range of
+    # the blocks above always has the uniform_discr defaults)
+    if not th:
+        ops += _op_block(range(1, 5), range(1, 8), 1, [d_f64], [None], ['range'],
+                         ran_nobs=('T', 'L'))
+        ops += _op_block(range(1, 5), range(1, 8), 1, [d_f64], [None], ['range'],
+                         ran_dtype='float32')
+        ops += _op_block([2, 3], range(1, 5), 2, [d_f64], [None], ['range'],
+                         offsets='first', ran_nobs=('T', 'LR'))
+        ops += _op_block([2, 3], range(1, 5), 2, [d_nu], [None], ['range'], offsets='first')
+    else:
+        ops += _op_block(range(1, 6), range(1, 10), 1, [d_f64, d_c, d_nob], [None], ['range'],
+                         ran_nobs=('T', 'L', 'R'))
+        ops += _op_block(range(1, 6), range(1, 10), 1, [d_f64], [None], ['range'],
+                         ran_dtype='float32')
+        ops += _op_block([1, 2, 3], range(1, 6), 2, [d_f64], [None], ['range'],
+                         ran_nobs=('T', 'LR', 'RL'))
+        ops += _op_block([1, 2, 3, 4], range(1, 6), 2, [d_nu], [None], ['range'])
     cfgs += ops
+    cfgs += _xr_cfgs(tier)
     cfgs += _hist_cfgs(tier)
     for name in REJ:
         cfgs.append({'kind': 'rej', 'name': name})
@@ -927,13 +957,15 @@ def _run_op(cfg):
     dk_nob = cfg['dk_nob']
     dnob = _nobs(ndim, domspec['nob'])
     req_nob = _nobs(ndim, dk_nob) if dk_nob is not None else None
+    ran_nob = _nobs(ndim, cfg.get('ran_nob') or 'F')    # of a hand-built range (how='range')
     cplx = np.dtype(domspec['dtype']).kind == 'c'
     n_in, n_out = int(np.prod(shape)), int(np.prod(newshp))
     head0 = ('domain=%s how=%s ran_shp=%s offset=%s discr_kwargs nodes_on_bdry=%s weighting=%s%s'
              % (_srepr(dom), how, list(newshp),
                 cfg['offset'][0] if cfg.get('offset_form') == 'scalar' else cfg['offset'],
                 dk_nob, cfg.get('w'),
-                ' dtype=%s' % cfg['ran_dtype'] if cfg.get('ran_dtype') else ''))
+                (' dtype=%s' % cfg['ran_dtype'] if cfg.get('ran_dtype') else '')
+                + (' range built with nodes_on_bdry=%s' % ran_nob if cfg.get('ran_nob') else '')))
 
     def make(mode, c):
         kw = {'pad_mode': _spelled(mode, c) if cfg.get('spell') else mode}
@@ -966,10 +998,22 @@ def _run_op(cfg):
         los, his = [], []
         for ax in range(ndim):
             g0 = G0[ax] - _grow_left(shape[ax], newshp[ax], off[ax]) * CELL[ax]
-            lo, hi = _extent(ax, newshp[ax], g0, (0, 0))
+            lo, hi = _extent(ax, newshp[ax], g0, ran_nob[ax])
             los.append(lo)
             his.append(hi)
-        ran = odl.uniform_discr(los, his, newshp, dtype=domspec['dtype'],
+        if domspec.get('nonuni'):
+            # the untouched last axis carries the domain's own non-uniform partition
+            part = None
+            for ax in range(ndim - 1):
+                pu = odl.uniform_partition(los[ax], his[ax], newshp[ax])
+                part = pu if part is None else part.append(pu)
+            pn = dom.partition.byaxis[ndim - 1]
+            part = pn if part is None else part.append(pn)
+            ran = odl.DiscretizedSpace(part, odl.rn(newshp, dtype=domspec['dtype'],
+                                                    weighting=0.5))
+            return odl.ResizingOperator(dom, ran, **kw)
+        ran = odl.uniform_discr(los, his, newshp, dtype=cfg.get('ran_dtype') or domspec['dtype'],
+                                nodes_on_bdry=[tuple(map(bool, p)) for p in ran_nob],
                                 **_weighting_arg(cfg.get('w') or domspec.get('w'), newshp,
                                                  _rdt(domspec['dtype'])))
         return odl.ResizingOperator(dom, ran, **kw)
@@ -1397,6 +1441,201 @@ def _run_hist(cfg):
 
 
 # ------------------------------------------------------------------------------------------
+# kind 'xr': explicitly given ``range=`` whose partition deviates from the consistent one in
+# exactly ONE axis -- a growing, a shrinking or an UNCHANGED one -- by the cell size or by a
+# shift, in three magnitude regimes of the cell size (an absolute tolerance in the comparison is
+# visible for tiny cells, a missing relative one for huge cells).
+#
+# Constructor docs: "Alternatively, the range of the operator can be provided directly.  This
+# requires that the partitions match, i.e. that the cell sizes are the same and there is no
+# shift"; class docs: "mapping between uniformly discretized DiscretizedSpace spaces with the
+# same DiscretizedSpace.cell_sides".  Property: "the resizing operator's range covers the
+# enlarged physical domain with unchanged cell sizes, and its adjoint satisfies the adjoint
+# identity in the weighted inner products".  So a deviating range is either refused cleanly
+# (ValueError -- what HEAD does for resized axes) or, if an operator is returned, that operator
+# is judged by the property: its range must have the domain's cell sides and must lie on the
+# domain's grid, in EVERY axis.  Nothing else is demanded.
+
+XR_SCALES = {'unit': 1.0, 'tiny': 2.0 ** -30, 'huge': 2.0 ** 30}
+# (name, class, parameter); cell factors are far from 1 on the scale of any sensible relative
+# tolerance (>= 2**-10); factors closer to 1 are "the same cell size" for some tolerance and
+# are not enumerated
+XR_DEVS = [('none', 'consistent', None),
+           ('cell*2 same first grid point', 'cell sides differ', (2.0, 'grid0')),
+           ('cell/2 same first grid point', 'cell sides differ', (0.5, 'grid0')),
+           ('cell*2 same min_pt', 'cell sides differ', (2.0, 'min')),
+           ('cell/2 same min_pt', 'cell sides differ', (0.5, 'min')),
+           ('cell*(1+2**-10) same first grid point', 'cell sides differ',
+            (1 + 2.0 ** -10, 'grid0')),
+           ('cell*(1-2**-10) same min_pt', 'cell sides differ', (1 - 2.0 ** -10, 'min')),
+           ('shifted by +1/2 cell', 'shifted by a fraction of a cell', 0.5),
+           ('shifted by +1/4 cell', 'shifted by a fraction of a cell', 0.25),
+           ('shifted by -1/4 cell', 'shifted by a fraction of a cell', -0.25),
+           ('shifted by +1 cell', 'shifted by whole cells', 1.0),
+           ('shifted by -2 cells', 'shifted by whole cells', -2.0)]
+
+
+def _xr_cfgs(tier):
+    th = tier == 'thorough'
+    blocks = [(range(1, 5), range(1, 8), 1), ([2, 3], range(1, 5), 2), ([2], [1, 2, 3], 3)]
+    if th:
+        blocks = [(range(1, 7), range(1, 11), 1), ([1, 2, 3], range(1, 6), 2),
+                  ([1, 2], [1, 2, 3], 3)]
+    cfgs = []
+    for sizes, newsizes, ndim in blocks:
+        pairs = []
+        for shape in itertools.product(sizes, repeat=ndim):
+            for newshp in itertools.product(newsizes, repeat=ndim):
+                pairs.append((sum(shape) + sum(newshp), shape, newshp))
+        pairs.sort()
+        for scale in ('unit', 'tiny', 'huge'):
+            for _, shape, newshp in pairs:
+                cfgs.append({'kind': 'xr', 'shape': list(shape), 'newshp': list(newshp),
+                             'scale': scale})
+    return cfgs
+
+
+def _run_xr(cfg):
+    shape, newshp = tuple(cfg['shape']), tuple(cfg['newshp'])
+    ndim = len(shape)
+    S = XR_SCALES[cfg['scale']]
+    regime = '' if cfg['scale'] == 'unit' else ';%s cells' % cfg['scale']
+    first = {}
+    sigs = set()
+    evals = 0
+    skipped = 0
+
+    def report(site, sym, det):
+        first.setdefault((site, sym), det)
+
+    cell = [CELL[ax] * S for ax in range(ndim)]
+    los, his = zip(*[(G0[ax] * S - cell[ax] / 2, G0[ax] * S + (shape[ax] - 0.5) * cell[ax])
+                     for ax in range(ndim)])
+    dom = odl.uniform_discr(list(los), list(his), shape)
+    n_in, n_out = int(np.prod(shape)), int(np.prod(newshp))
+    x0 = _generic(n_in, False).reshape(shape)
+    y0 = _generic(n_out, False)[::-1].reshape(newshp)
+
+    def consequences(op):
+        """What the accepted operator does to the two geometric clauses (for the detail)."""
+        try:
+            x, y = op.domain.element(x0), op.range.element(y0)
+            lhs, rhs = op(x).inner(y), x.inner(op.adjoint(y))
+            return ('range.cell_sides=%s domain.cell_sides=%s; range grid start %s, domain grid '
+                    'start %s, op.offset=%s; <A x, y>_range = %r, <x, A^* y>_domain = %r'
+                    % (_fmt(op.range.cell_sides), _fmt(op.domain.cell_sides),
+                       _fmt(op.range.grid.min_pt), _fmt(op.domain.grid.min_pt),
+                       tuple(op.offset), lhs, rhs))
+        except Exception as e:
+            return 'using the operator: %r' % (e,)
+
+    for off in R.all_offsets(shape, newshp):
+        g0 = [G0[ax] * S - _grow_left(shape[ax], newshp[ax], off[ax]) * cell[ax]
+              for ax in range(ndim)]
+        for ax in range(ndim):
+            akind = ('growing' if newshp[ax] > shape[ax] else
+                     'shrinking' if newshp[ax] < shape[ax] else 'unchanged')
+            for dname, dclass, par in XR_DEVS:
+                if dclass == 'consistent' and ax > 0:
+                    continue
+                if dclass == 'shifted by whole cells' and akind != 'unchanged':
+                    # in a resized axis this is another offset: admissible while the block stays
+                    # inside (kind 'op'), undocumented otherwise -- not enumerated
+                    continue
+                rlo, rhi = [], []
+                for a in range(ndim):
+                    c, m = cell[a], newshp[a]
+                    lo, hi = g0[a] - c / 2, g0[a] + (m - 0.5) * c
+                    if a == ax and dclass == 'cell sides differ':
+                        c2 = par[0] * c
+                        lo = g0[a] - c2 / 2 if par[1] == 'grid0' else lo
+                        hi = lo + m * c2
+                    elif a == ax and dclass.startswith('shifted'):
+                        lo, hi = lo + par * c, hi + par * c
+                    rlo.append(lo)
+                    rhi.append(hi)
+                ran = odl.uniform_discr(rlo, rhi, newshp)
+                head = 'ResizingOperator(domain=%s, range=%s)  [range consistent with offset %s' \
+                    % (_srepr(dom), _srepr(ran), list(off))
+                head += (' in every axis]' if dclass == 'consistent' else
+                         ' except in axis %d (%s): %s]' % (ax, akind, dname))
+                evals += 1
+                try:
+                    op = odl.ResizingOperator(dom, ran)
+                except ValueError:
+                    if dclass == 'consistent':
+                        report('ResizingOperator[range=;consistent%s]' % regime,
+                               'raises:ValueError', head + ': an admissible range was refused')
+                    sigs.add('xr:%s:%s:%s:refused' % (dclass, akind, cfg['scale']))
+                    continue
+                except Exception as e:
+                    report('ResizingOperator[range=;%s;%s axis%s]' % (dclass, akind, regime),
+                           'raises:' + type(e).__name__, head + ': %r' % (e,))
+                    continue
+                sigs.add('xr:%s:%s:%s:accepted' % (dclass, akind, cfg['scale']))
+                if dclass == 'consistent':
+                    # the admissible range in this magnitude regime: offset, values, adjoint
+                    csite = 'ResizingOperator[range=;consistent%s]' % regime
+                    exp_off = tuple(o if n != m else 0 for o, n, m in zip(off, shape, newshp))
+                    if tuple(int(o) for o in op.offset) != exp_off:
+                        report(csite, 'offset_differs', head + ': op.offset=%s, expected %s'
+                               % (tuple(op.offset), exp_off))
+                        continue
+                    for mode in MODES:
+                        if R.why_inadmissible(shape, newshp, off, mode):
+                            continue
+                        try:
+                            opm = odl.ResizingOperator(dom, ran, pad_mode=mode)
+                            got = opm(dom.element(x0)).asarray()
+                            evals += 1
+                            M, _ = R.matrix(shape, newshp, off, mode)
+                            exp = (M @ x0.reshape(-1)).reshape(newshp)
+                            if not _same(got, exp):
+                                report(csite, 'forward_differs', head + ' pad_mode=%s input=%s '
+                                       'expected=%s got=%s' % (mode, _fmt(x0), _fmt(exp),
+                                                               _fmt(got)))
+                            # equal cell volumes on both sides: the transpose is the adjoint
+                            y = ran.element(y0)
+                            lhs = opm(dom.element(x0)).inner(y)
+                            rhs = dom.element(x0).inner(opm.adjoint(y))
+                            evals += 1
+                            if not _close(lhs, rhs):
+                                report(csite, 'adjoint_identity_fails', head + ' pad_mode=%s: '
+                                       '<A x, y>_range = %r, <x, A^* y>_domain = %r'
+                                       % (mode, lhs, rhs))
+                        except Exception as e:
+                            report(csite, 'raises:' + type(e).__name__,
+                                   head + ' pad_mode=%s: %r' % (mode, e))
+                    continue
+                # a deviating range was accepted: the operator is judged by the property
+                site = 'ResizingOperator[range=;%s;%s axis%s]' % (dclass, akind, regime)
+                if dclass == 'shifted by whole cells':
+                    # In a resized axis a shift by whole cells is simply the offset, and the
+                    # library's own refusal speaks of "a non-multiple of cell_sides"; whether
+                    # "there is no shift" also excludes whole cells in an axis that is not
+                    # resized (HEAD: accepted, op.offset 0 there, values copied as they are) is
+                    # not arbitrated by the property -- counted, not judged
+                    skipped += 1
+                    continue
+                if dclass.startswith('shifted') and akind == 'unchanged':
+                    # the magnitude regime plays no role for this class (no tolerance involved)
+                    site = 'ResizingOperator[range=;%s;%s axis]' % (dclass, akind)
+                if dclass == 'cell sides differ':
+                    report(site, 'range_cell_sides_differ_from_domain',
+                           head + ': accepted without an error although the cell sides differ '
+                           'by the factor %r in axis %d; %s' % (par[0], ax, consequences(op)))
+                else:
+                    report(site, 'range_shifted_relative_to_domain',
+                           head + ': accepted without an error although the range grid is '
+                           'shifted by %r cells against the domain grid in axis %d (documented '
+                           'requirement: "there is no shift"; the values are copied unshifted); '
+                           '%s' % (par, ax, consequences(op)))
+    viol = [{'site': s, 'symptom': y, 'detail': d} for (s, y), d in sorted(first.items())]
+    return {'evals': evals, 'viol': viol, 'sig': sorted(sigs) or ['xr:none'],
+            'skipped': skipped, 'trivial': evals == 0}
+
+
+# ------------------------------------------------------------------------------------------
 # kind 'rej': argument combinations the documentation excludes must be refused cleanly
 
 def _run_rej(cfg):
@@ -1490,6 +1729,8 @@ def run(cfg):
         return _run_op(cfg)
     if cfg['kind'] == 'hist':
         return _run_hist(cfg)
+    if cfg['kind'] == 'xr':
+        return _run_xr(cfg)
     return _run_rej(cfg)
 
 
